@@ -8,7 +8,7 @@ import numpy as np
 import z3
 
 from . import core
-from .core import SR, SB, SI, _is_nan_float
+from .core import SR, SB, SI, SC, _is_nan_float
 
 
 def _is_da(a):
@@ -16,7 +16,7 @@ def _is_da(a):
 
 
 def _isobj(a):
-    return isinstance(a, (SR, SB, SI)) or (isinstance(a, np.ndarray) and a.dtype == object)
+    return isinstance(a, (SR, SB, SI, SC)) or (isinstance(a, np.ndarray) and a.dtype == object)
 
 
 class SymArray(np.ndarray):
@@ -57,13 +57,50 @@ def objarr(shape, fill=0):
     return a
 
 
+def uninit(shape):
+    """np.empty: uninitialised memory = one fresh unconstrained symbol per element"""
+    import z3
+    a = np.empty(shape, dtype=object).view(SymArray)
+    cx = core.ctx()
+    for idx in np.ndindex(*a.shape):
+        np.ndarray.__setitem__(a, idx, SR(cx._fresh("uninit")))
+    return a
+
+
+class ConcNP:
+    """concrete replay: numpy with np.empty made deterministic (NaN filled; any content is a legal behaviour of
+    uninitialised memory, and NaN makes a read of it visible)"""
+
+    def __getattr__(self, n):
+        return getattr(np, n)
+
+    def empty(self, shape, dtype=None, **k):
+        a = np.empty(shape, dtype=dtype, **k)
+        if a.dtype.kind in "fc":
+            a[...] = np.nan
+        return a
+
+    def empty_like(self, a, dtype=None, **k):
+        r = np.empty_like(a, dtype=dtype, **k)
+        if r.dtype.kind in "fc":
+            r[...] = np.nan
+        return r
+
+
 def _floatlike(dtype):
     if dtype is None:
         return True
     try:
-        return np.dtype(dtype).kind == "f"
+        return np.dtype(dtype).kind in "fc"
     except TypeError:
         return False
+
+
+def _wantobj(a, dtype):
+    """*_like constructors: float result wanted (explicit float dtype, or dtype inherited from a float/object array)"""
+    if dtype is not None:
+        return _floatlike(dtype)
+    return _isobj(a) or np.asarray(a).dtype.kind == "f"
 
 
 def lift_array(x):
@@ -92,6 +129,8 @@ def vec(f, a):
 def _nanq(q):
     if _is_nan_float(q):
         return True
+    if isinstance(q, SC):
+        return q.isnan()
     if isinstance(q, SR):
         return False if q.n is None else SB(q.n)
     if isinstance(q, (float, np.floating)):
@@ -121,7 +160,7 @@ class SymNP:
 
     def empty(self, shape, dtype=None, **k):
         if _floatlike(dtype):
-            return objarr(shape, 0)
+            return uninit(shape)
         return np.empty(shape, dtype=dtype)
 
     def full(self, shape, fill_value, dtype=None, **k):
@@ -134,22 +173,22 @@ class SymNP:
         return np.full(shape, fill_value, dtype=dtype)
 
     def zeros_like(self, a, dtype=None, **k):
-        if _floatlike(dtype) and (_isobj(a) or np.asarray(a).dtype.kind == "f"):
+        if _wantobj(a, dtype):
             return objarr(np.shape(a), 0)
         return np.zeros_like(a, dtype=dtype)
 
     def ones_like(self, a, dtype=None, **k):
-        if _floatlike(dtype) and (_isobj(a) or np.asarray(a).dtype.kind == "f"):
+        if _wantobj(a, dtype):
             return objarr(np.shape(a), 1)
         return np.ones_like(a, dtype=dtype)
 
     def empty_like(self, a, dtype=None, **k):
-        if _floatlike(dtype) and (_isobj(a) or np.asarray(a).dtype.kind == "f"):
-            return objarr(np.shape(a), 0)
+        if _wantobj(a, dtype):
+            return uninit(np.shape(a))
         return np.empty_like(a, dtype=dtype)
 
     def full_like(self, a, fill_value, dtype=None, **k):
-        if _floatlike(dtype) and (_isobj(a) or np.asarray(a).dtype.kind == "f"):
+        if _wantobj(a, dtype):
             return self.full(np.shape(a), fill_value)
         return np.full_like(a, fill_value, dtype=dtype)
 
@@ -232,13 +271,15 @@ class SymNP:
             for x in xs:
                 if _is_nan_float(x):
                     return float("nan")
-                if isinstance(x, (SR,)):
+                if isinstance(x, (SR, SC)):
                     ys.append(x)
+                elif isinstance(x, (complex, np.complexfloating)):
+                    ys.append(SC.lift(x))
                 elif isinstance(x, SI):
                     ys.append(SR(core.zt(x)))
                 else:
                     ys.append(SR(core._frac(x)) if core._frac(x) is not None else x)
-            if not isinstance(ys[0], SR):
+            if not isinstance(ys[0], (SR, SC)):
                 raise core.Unsupported(f"{name} of {ys[0]!r}")
             return getattr(ys[0], name)(*ys[1:])
 
@@ -269,6 +310,20 @@ class SymNP:
     rint = _mk("rint")
     floor = _mk("floor")
     del _mk
+
+    def angle(self, z, deg=False):
+        if _isobj(z):
+            def f(q):
+                if isinstance(q, SC):
+                    return q.angle()
+                if _is_nan_float(q):
+                    return float("nan")
+                if isinstance(q, SR):
+                    return core.ctx().uatan2(SR(core.Fraction(0)), q)
+                return float(np.angle(q))
+            r = vec(f, z)
+            return r.view(SymArray) if isinstance(r, np.ndarray) else r
+        return np.angle(z, deg=deg)
 
     def max(self, a, *args, **k):
         return np.max(a, *args, **k)
